@@ -45,11 +45,17 @@ def run_be(PID, prop_file, gen, monitor, nontrivial, rule, n_quick=400, n_thorou
             c0 = byline[line]
             def mk(cmds):
                 c = copy.copy(c0); c.cmds = list(cmds); return c
+            def msg_of(c):
+                l = c.line(); i = ck.run_impl(iexe, [l], per_case_timeout=15)[0]
+                if i.startswith(('CRASH', 'HANG', 'NOOUTPUT')): return i.split()[0]
+                m = monitor(c, BC.parse_obs(i))
+                return None if m is None else ''.join(ch for ch in m if not ch.isdigit())[:40]
+            orig = msg_of(c0) if mode == 'monitor' else None
             def fails(cmds):
-                c = mk(cmds); l = c.line(); i = ck.run_impl(iexe, [l], per_case_timeout=15)[0]
+                c = mk(cmds)
                 if mode == 'monitor':
-                    if i.startswith(('CRASH', 'HANG', 'NOOUTPUT')): return True
-                    return monitor(c, BC.parse_obs(i)) is not None
+                    return msg_of(c) == orig          # the same kind of failure, not just any failure
+                l = c.line(); i = ck.run_impl(iexe, [l], per_case_timeout=15)[0]
                 return ck.run_model(mexe, [l])[0] != i
             return mk(ddmin(c0.cmds, fails, max_tests=150)).line()
 
